@@ -212,6 +212,8 @@ pub fn run_raw(service: varlink::VarlinkService, bytes: &[u8]) -> Sx {
 // ---------------------------------------------------------------- command loop
 
 pub struct Handlers {
+    /// `get_description()` of the generated proxy
+    pub description: fn() -> &'static str,
     pub probe: fn(&str, Value) -> Option<Sx>,
     pub call: fn(i64, Arc<RwLock<varlink::Connection>>) -> Vec<Sx>,
     pub service: fn() -> varlink::VarlinkService,
@@ -241,6 +243,11 @@ fn one(h: &Handlers, cmd: &Sx) -> Sx {
             let r = run_loop((h.service)(), move |c| call(k, c));
             set_case(-1);
             r
+        }
+        "desc" => {
+            // the description constant the generator emitted, compared with the definition text byte by byte
+            let expected = l.get(1).and_then(|x| x.as_str()).unwrap_or_default();
+            sx::tagged("desc", vec![sx::boolean((h.description)() == expected)])
         }
         "raw" => {
             let b = l.get(1).and_then(|x| x.as_bytes()).unwrap_or_default();
